@@ -133,7 +133,8 @@ func parseProperType(data []byte, v reflect.Value) bool {
 	s := goutil.BytesToString(data)
 	switch v.Kind() {
 	case reflect.String:
-		v.SetString(s)
+		// an own copy: data is the caller's (recycled) buffer
+		v.SetString(string(data))
 	case reflect.Bool:
 		bol, err := strconv.ParseBool(s)
 		if err != nil {
@@ -162,7 +163,8 @@ func parseProperType(data []byte, v reflect.Value) bool {
 		if v.Type().Elem().Kind() != reflect.Uint8 {
 			return false
 		}
-		v.SetBytes(data)
+		// an own copy: data is the caller's (recycled) buffer
+		v.SetBytes(append([]byte(nil), data...))
 	case reflect.Invalid:
 		return true
 	default:
